@@ -19,6 +19,8 @@ type c10Case struct {
 	Kind string      `json:"kind"`
 	Pos  int         `json:"pos"`
 	Args []*resp.Bin `json:"args"` // null entry = null bulk
+	// Password: the server requires a password and the connection has authenticated before the ill-formed request
+	Password bool `json:"password,omitempty"`
 }
 
 func (c c10Case) value() resp.Value {
@@ -47,12 +49,28 @@ func (c c10Case) String() string {
 
 func evalC10(c c10Case) *Failure {
 	srv, rec := newRecServer()
-	srv.SetAuthCommandHandler(rec)
-	data := c.value().Bytes()
+	var data []byte
+	ill := 0 // index of the ill-formed request in the stream
+	if c.Password {
+		srv.SetPort(0)
+		srv.SetRequirePass("sesame")
+		if err := srv.Start(); err != nil {
+			return failf("harness|start", "%v", err)
+		}
+		defer srv.Stop()
+		data = resp.Cmd("AUTH", "sesame").Bytes()
+		ill = 1
+	} else {
+		srv.SetAuthCommandHandler(rec)
+	}
+	data = c.value().Encode(data)
 	data = resp.Cmd("GET", "probe").Encode(data)
 	conn := connsim.NewPreloaded(1, [][]byte{data})
 	o := connsim.Serve(srv, conn, serveTimeout())
 	what := fmt.Sprintf("%s [%s at %d]", c, c.Kind, c.Pos)
+	if c.Password {
+		what += " on an authenticated connection of a password-protected server"
+	}
 	tag := c.Name + "|" + strings.SplitN(c.Kind, ":", 2)[0]
 	if o.TimedOut {
 		return stallFailure("c10|"+c.Name, what)
@@ -61,13 +79,14 @@ func evalC10(c c10Case) *Failure {
 		return failf("c10|panic|"+panicKey(o)+"|"+c.Name, "%s: panic: %v", what, o.Panic)
 	}
 	frames, _, err := conn.Frames()
-	if err != nil || len(frames) != 2 {
-		return failf("c10|frames|"+tag, "%s: %d reply frames for 2 requests (%v): %q", what, len(frames), err, clip(conn.Out()))
+	if err != nil || len(frames) != 2+ill {
+		return failf("c10|frames|"+tag, "%s: %d reply frames for %d requests (%v): %q", what, len(frames), 2+ill, err, clip(conn.Out()))
 	}
+	frames = frames[ill:]
 	calls := rec.Snapshot()
 	var first []string
 	for _, cl := range calls {
-		if cl.Frames == 0 {
+		if cl.Frames == ill {
 			first = append(first, callStr(cl))
 		}
 	}
@@ -118,6 +137,13 @@ func TestC10(t *testing.T) {
 			if !stop && !h.Report("c10.ill", c, evalC10(c)) {
 				stop = true
 			}
+			// the same on an authenticated connection of a password-protected server (the connection keeps its authorization)
+			cp := c
+			cp.Password = true
+			h.Col.Case(true, append([]byte("pw\x00"), c.value().Bytes()...), "cmd:"+ill.Name, "password-protected")
+			if !stop && !h.Report("c10.ill", cp, evalC10(cp)) {
+				stop = true
+			}
 		}
 		h.Col.Exhaustive("table of ill-formed shapes (cmdspec.IllFormed)", !stop)
 		h.Col.Note("table_size", len(table))
@@ -149,7 +175,8 @@ func TestC10(t *testing.T) {
 				c.Args[i] = &x
 			}
 		}
-		h.Col.Case(true, c.value().Bytes(), "random", "cmd:"+ill.Name)
+		c.Password = rapid.IntRange(0, 3).Draw(rt, "pw") == 0
+		h.Col.Case(true, append([]byte{boolByte(c.Password)}, c.value().Bytes()...), "random", "cmd:"+ill.Name)
 		h.Fail(rt, "c10.ill", c, evalC10(c))
 	})
 }
